@@ -12,7 +12,9 @@ pub fn fmt_stub(_args: std::fmt::Arguments<'_>) -> String { String::new() }
 /// Encode `v` with the real encoder through the public entry point.
 pub fn enc<T: Encode>(v: &T, plugin: &Plugin) -> Vec<u8> {
     let mut e = PostcardEncoder::new(Vec::new());
-    e.encode(v, plugin).expect("encode");
+    if e.encode(v, plugin).is_err() {
+        panic!("encode returned an error");
+    }
     e.into_inner()
 }
 
@@ -23,11 +25,25 @@ pub fn rt<T: Encode + Decode>(v: &T, sentinel: u8) -> (T, usize, usize) {
     let n = bytes.len();
     bytes.push(sentinel);
     let mut d = PostcardDecoder::new(&bytes[..]);
-    let out: T = d.decode(&plugin).expect("decode");
+    let out: T = match d.decode(&plugin) {
+        Ok(v) => v,
+        Err(e) => {
+            std::mem::forget(e);
+            panic!("decode returned an error on the encoder's own output");
+        }
+    };
     let rest = d.into_inner();
     let left = rest.len();
     if left == 1 {
         assert!(rest[0] == sentinel);
     }
     (out, left, n)
+}
+
+/// Stub for `String::from_utf8` in the string-carrying harnesses: accepts the bytes unchecked.
+/// Symbolic execution of std's UTF-8 validator on symbolic bytes exhausts memory (24 GB); the stub
+/// removes only the *rejection* path of the decoder: the decoded bytes are still compared with the
+/// original string, so any corruption of content or length is still a failed assertion.
+pub fn from_utf8_stub(v: Vec<u8>) -> Result<String, std::string::FromUtf8Error> {
+    Ok(unsafe { String::from_utf8_unchecked(v) })
 }
